@@ -61,12 +61,12 @@ void __assert_fail(const char* expr, const char* file, unsigned int line, const 
   fprintf(stderr, "c20: %s:%u: %s: Assertion `%s' failed.\n", file, line, func, expr);
   siglongjmp(g_jmp, 2);
 }
-/* watchdog: 2 s per case (a case takes milliseconds); once 2 cases have hung in this process the
- * library is broken anyway and the budget drops to 0.3 s so that a run stays short */
+/* watchdog: 6 s per case (a case takes milliseconds); once 2 cases have hung in this process the
+ * library is broken anyway and the budget drops to 1 s so that a run stays short */
 static void watchdog(int on) {
   struct itimerval it;
   memset(&it, 0, sizeof it);
-  if (on) { if (g_hangs < 2) it.it_value.tv_sec = 2; else it.it_value.tv_usec = 300000; }
+  if (on) { if (g_hangs < 2) it.it_value.tv_sec = 6; else it.it_value.tv_sec = 1; }
   setitimer(ITIMER_REAL, &it, NULL);
 }
 
